@@ -200,6 +200,12 @@ def deployments(tier):
     for k in (2,) if q else (1, 2, 3):
         dep(f"tri-two-comps-k{k}", {"a0": 9, "a1": 9, "a2": 6}, two, edges5, k)
         dep(f"tri-two-comps-ample-k{k}", {"a0": 100, "a1": 100, "a2": 100}, two, edges5, k)
+    # two computations of EQUAL footprint owned by the same agent (their replicas land on the same tight host)
+    same = {"a0": {"c0": 3, "c3": 3}, "a1": {"c1": 2}, "a2": {"c2": 1}}
+    edges_same = [("c0", "c2"), ("c3", "c2"), ("c1", "c2"), ("c0", "c1"), ("c3", "c1")]
+    for k in (2,) if q else (2, 3):
+        dep(f"equal-footprints-tight-k{k}", {"a0": 20, "a1": 9, "a2": 8}, same, edges_same, k)
+        dep(f"equal-footprints-tight2-k{k}", {"a0": 20, "a1": 8, "a2": 8}, same, edges_same, k)
     if not q:
         star4 = [("c0", "c1"), ("c0", "c2"), ("c0", "c3")]
         one4 = {"a0": {"c0": 1}, "a1": {"c1": 1}, "a2": {"c2": 3}, "a3": {"c3": 1}}
